@@ -15,4 +15,23 @@ pub mod verif_support {
         // SAFETY: RandomState is two u64 keys.
         unsafe { std::mem::transmute::<(u64, u64), std::hash::RandomState>((0u64, 0u64)) }
     }
+
+    pub fn stub_false() -> bool {
+        false
+    }
+
+    /// stand-in for std::io::_eprint / _print: formatting to stderr is irrelevant to every contract here and costs
+    /// CBMC minutes of string-searching loops
+    pub fn noop_print(_args: std::fmt::Arguments<'_>) {}
+
+    pub fn noop_format(_args: std::fmt::Arguments<'_>) -> String {
+        String::new()
+    }
+
+    /// Allocation never fails in these harnesses (Kani's allocator model does not fail); the real handler prints to
+    /// stderr through the formatting machinery, which CBMC's symbolic execution walks through even on infeasible paths.
+    pub fn stub_alloc_error(_layout: std::alloc::Layout) -> ! {
+        kani::assume(false);
+        unreachable!()
+    }
 }
